@@ -166,6 +166,7 @@ func (w *World) truncationChecks(everyByteBelow, samples int) {
 			}
 			legal[rowsKey(w.model.Cols, readAllRows(fresh, w.model.Cols))] = j
 			fresh.Close()
+			runtime.Gosched()
 		}
 		mode := "eof"
 		for _, p := range truncationPoints(len(data), s.file.Boundaries(), everyByteBelow, samples, rng) {
@@ -211,6 +212,7 @@ func (w *World) truncationChecks(everyByteBelow, samples int) {
 				}
 				fresh.Close()
 				w.colls = w.colls[:len(w.colls)-1]
+				runtime.Gosched() // lets the cancelled vacuum goroutine exit and release its collection
 			}
 		}
 	}
@@ -381,6 +383,10 @@ func (w *World) snapshotFaultChecks(everyByteBelow, samples int) {
 			w.fail(violation("snapshot-leak/fd", "a Snapshot in which %s (err=%v) changed the number of open descriptors from %d to %d", pl.what, err, fdBefore, fdAfter))
 			return
 		}
+		if i%20 == 19 {
+			// the descriptor count of this point has been judged: collecting now cannot hide a leak
+			runtime.GC()
+		}
 		// the collection keeps working: every few points commit something, then snapshot to
 		// a healthy writer and restore
 		if i%7 == 0 || i == len(plans)-1 {
@@ -418,6 +424,7 @@ func (w *World) snapshotFaultChecks(everyByteBelow, samples int) {
 			}
 			fresh.Close()
 			w.colls = w.colls[:len(w.colls)-1]
+			runtime.Gosched()
 		}
 	}
 }
